@@ -1,6 +1,284 @@
+/-
+  GV.Props.C15 — maps use Go key equality for every comparable key type.
+
+  Model: GV.Model.MapKey (`keyFor` per kind, `$floatKey`, `$idKey`, escaping/joining) and GV.Model.GoMap
+  (JS `Map`, emitted operations, range loop).  Spec: GV.Spec.MapKey (Go `==`, abstract finite map).
+
+  Full-strength statement `key_injective_full` is FALSE of the code as it is: three counterexamples are
+  proved (`key_injective_counterexample_*`, `not_key_injective`).  `key_injective_partial` proves the
+  statement for all key types and values under explicit decidable hypotheses that exclude exactly those.
+-/
 import GV.Model.MapKey
 import GV.Model.GoMap
 import GV.Spec.MapKey
+import GV.Proofs.MapKeyStr
+import GV.Proofs.MapKeyInj
+import GV.Proofs.GoMapRefine
+import GV.Proofs.GoMapRange
+import GV.Proofs.GoMapRangeOnce
 
 namespace GV.Props.C15
+open GV.MapKey GV.GoMap GV.Spec.MapKey GV.Proofs.MapKeyStr GV.Proofs.MapKeyInj GV.Proofs.GoMapRefine
+
+/-! ### string level -/
+
+/-- the two `replace` passes of types.js:149,265 are one escaping pass -/
+theorem esc_single_pass (s : Str) : esc s = esc1 s := esc_eq_esc1 s
+
+/-- joining escaped component keys with `$` is injective for fixed arity (arbitrary component strings) -/
+theorem join_esc_injective (l1 l2 : List Str) (hlen : l1.length = l2.length)
+    (h : joinD (l1.map esc) = joinD (l2.map esc)) : l1 = l2 :=
+  GV.Proofs.MapKeyStr.join_esc_injective l1 l2 hlen h
+
+theorem decNat_injective (a b : Nat) (h : decNat a = decNat b) : a = b := GV.Proofs.MapKeyStr.decNat_injective a b h
+theorem decInt_injective (a b : Int) (h : decInt a = decInt b) : a = b := GV.Proofs.MapKeyStr.decInt_injective a b h
+
+/-- `String(f) = String(g)` exactly when Go says `f == g`, for non-NaN floats -/
+theorem numStr_injective (f g : Flt) (hf : f ≠ .nan) (hg : g ≠ .nan) (wf : fwt f = true) (wg : fwt g = true) :
+    numStr f = numStr g ↔ fltEq f g = true := GV.Proofs.MapKeyStr.numStr_injective f g hf hg wf wg
+
+/-! ### key equality = Go equality -/
+
+/-- FULL STRENGTH (not claimed — false today): for every key type `τ`, values `a b : τ`, evaluated one after
+    the other in any reachable prelude state, the JS Map keys coincide exactly when Go's `a == b`. -/
+def key_injective_full : Prop :=
+  ∀ (reg : Nat → Str) (shape : Nat → KType) (τ : KType) (a b : KVal) (s1 s2 : KSt),
+    wt shape τ a = true → wt shape τ b = true → Inv s1 → Inv s2 → Le (keyFor reg a s1).2 s2 →
+    ((keyFor reg a s1).1 = (keyFor reg b s2).1 ↔ goEq a b = true)
+
+/-- PARTIAL (proved, all key types / values / states): if dynamic type strings identify the type and contain
+    no `$` (`RegOK`), and neither value holds a complex number with a NaN component or a float array with a NaN
+    element (`good`), then the two Map keys coincide exactly when Go's `==` holds (NaN never equal, +0 == -0,
+    interfaces by dynamic type identity and value, arrays/structs element-wise, pointers by identity). -/
+theorem key_injective_partial (reg : Nat → Str) (hreg : RegOK reg) (shape : Nat → KType) (τ : KType) (a b : KVal)
+    (s1 s2 : KSt) (ha : wt shape τ a = true) (hb : wt shape τ b = true) (ga : good a = true) (gb : good b = true)
+    (i1 : Inv s1) (i2 : Inv s2) (hle : Le (keyFor reg a s1).2 s2) :
+    (keyFor reg a s1).1 = (keyFor reg b s2).1 ↔ goEq a b = true :=
+  key_inj reg hreg shape τ a b s1 s2 ha hb ga gb i1 i2 hle
+
+/-- the hypotheses are decidable -/
+instance (v : KVal) : Decidable (good v = true) := inferInstance
+
+theorem regOK_dec : RegOK (fun i => 84 :: decNat i) := by
+  constructor
+  · intro i h
+    rcases List.mem_cons.mp h with h | h
+    · omega
+    · exact no_dollar_decNat i h
+  · intro i j h
+    exact GV.Proofs.MapKeyStr.decNat_injective i j (List.cons.inj h).2
+
+/-- the hypotheses of `key_injective_partial` are satisfiable by a non-trivial pair: struct keys
+    `{"$", interface(T1(NaN)), [2]float{-0, 1.5}}` and `{"$", interface(T1(NaN)), [2]float{+0, 1.5}}`
+    (not equal: the NaN inside the interface), and the theorem applies to them. -/
+theorem key_injective_partial_sat :
+    let reg : Nat → Str := fun i => 84 :: decNat i
+    let shape : Nat → KType := fun _ => .float
+    let τ : KType := .struct (.cons .string (.cons .iface (.cons (.array .float 2) .nil)))
+    let a : KVal := .tuple false (.cons (.str [36]) (.cons (.iface 1 (.float .nan))
+      (.cons (.tuple true (.cons (.float (.zero true)) (.cons (.float (.fin 3)) .nil))) .nil)))
+    let b : KVal := .tuple false (.cons (.str [36]) (.cons (.iface 1 (.float .nan))
+      (.cons (.tuple true (.cons (.float (.zero false)) (.cons (.float (.fin 3)) .nil))) .nil)))
+    RegOK reg ∧ wt shape τ a = true ∧ wt shape τ b = true ∧ good a = true ∧ good b = true ∧ Inv KSt.init ∧
+      goEq a b = false ∧ (keyFor reg a KSt.init).1 ≠ (keyFor reg b (keyFor reg a KSt.init).2).1 := by
+  intro reg shape τ a b
+  have hr : RegOK reg := regOK_dec
+  have ha : wt shape τ a = true := by decide
+  have hb : wt shape τ b = true := by decide
+  have ga : good a = true := by decide
+  have gb : good b = true := by decide
+  have hq : goEq a b = false := by decide
+  refine ⟨hr, ha, hb, ga, gb, inv_init, hq, ?_⟩
+  intro h
+  have := (key_injective_partial reg hr shape τ a b KSt.init _ ha hb ga gb inv_init
+    (keyFor_mono reg a KSt.init inv_init).1 (Le.refl _)).mp h
+  rw [hq] at this; cases this
+
+/-! ### the three recorded defects, as proved counterexamples of `key_injective_full` -/
+
+def reg0 : Nat → Str := fun i => if i ≤ 2 then [84] else 84 :: decNat i
+def shape0 : Nat → KType := fun _ => .int
+
+/-- complex keys with a NaN component collide (types.js:127,136): `complex(NaN, 1)` twice gives `"NaN$1"` twice -/
+theorem key_injective_counterexample_complex_nan :
+    let a : KVal := .complex .nan (.fin 2)
+    wt shape0 .complex a = true ∧ goEq a a = false ∧
+      (keyFor reg0 a KSt.init).1 = (keyFor reg0 a (keyFor reg0 a KSt.init).2).1 := by
+  refine ⟨by decide, by decide, ?_⟩
+  simp [keyFor]
+
+/-- `[1]float64{NaN}` keys collide (types.js:147-151: the Float64Array swallows the `NaN$id` string) -/
+theorem key_injective_counterexample_float_array_nan :
+    let a : KVal := .tuple true (.cons (.float .nan) .nil)
+    wt shape0 (.array .float 1) a = true ∧ goEq a a = false ∧
+      (keyFor reg0 a KSt.init).1 = (keyFor reg0 a (keyFor reg0 a KSt.init).2).1 := by
+  refine ⟨by decide, by decide, ?_⟩
+  simp [keyFor, keysFor, typedArrayCoerce]
+
+/-- interface keys of two distinct dynamic types (ids 1 and 2) with the same type string collide (types.js:46) -/
+theorem key_injective_counterexample_iface_type_string :
+    let a : KVal := .iface 1 (.int 5)
+    let b : KVal := .iface 2 (.int 5)
+    wt shape0 .iface a = true ∧ wt shape0 .iface b = true ∧ goEq a b = false ∧
+      (keyFor reg0 a KSt.init).1 = (keyFor reg0 b (keyFor reg0 a KSt.init).2).1 := by
+  refine ⟨by decide, by decide, by decide, ?_⟩
+  simp [keyFor, reg0]
+
+theorem not_key_injective : ¬ key_injective_full := by
+  intro h
+  have c := key_injective_counterexample_complex_nan
+  simp only at c
+  have := (h reg0 shape0 .complex _ _ KSt.init _ c.1 c.1 inv_init
+    (keyFor_mono reg0 _ KSt.init inv_init).1 (Le.refl _)).mp c.2.2
+  rw [c.2.1] at this; cases this
+
+/-! ### `$idKey` and the state -/
+
+/-- `$idKey` gives two objects the same key exactly when they are the same object, in every reachable state -/
+theorem idKey_injective (o1 o2 : Nat) (s : KSt) (h : Inv s) :
+    (idKey o1 s).1 = (idKey o2 (idKey o1 s).2).1 ↔ o1 = o2 := by
+  have := key_injective_partial (fun i => 84 :: decNat i) regOK_dec (fun _ => .int) .ref (.ref o1) (.ref o2) s
+    (keyFor (fun i => 84 :: decNat i) (.ref o1) s).2 (by simp [wt]) (by simp [wt]) (by simp [good]) (by simp [good]) h
+    (keyFor_mono _ _ s h).1 (Le.refl _)
+  simpa [keyFor, goEq] using this
+
+/-- every `keyFor` call keeps the state invariant and only moves the state forward -/
+theorem keyFor_state_mono (reg : Nat → Str) (v : KVal) (s : KSt) (h : Inv s) :
+    Inv (keyFor reg v s).2 ∧ Le s (keyFor reg v s).2 := keyFor_mono reg v s h
+
+/-! ### histories: the JS `Map` encoding refines the abstract map modulo `==` -/
+
+/-- FULL STRENGTH (not claimed — false today because key equality is): every history gives the same outputs on the
+    JS encoding and on the abstract map, for every key type. -/
+def map_refines_full : Prop :=
+  ∀ (reg : Nat → Str) (shape : Nat → KType) (τ : KType) (ops : List Op),
+    (∀ op ∈ ops, match op with
+      | .store k _ | .delete k | .index k | .commaOk k => wt shape τ k = true
+      | .literal es => ∀ e ∈ es, wt shape τ e.1 = true
+      | _ => True) →
+    run reg MSt.init ops = runS none ops
+
+/-- witness: `m := make(map[complex128]int); m[NaN+NaNi] = 1; m[NaN+NaNi] = 2; len(m)` is 1 on the JS encoding, 2 in Go -/
+theorem map_refines_counterexample : ¬ map_refines_full := by
+  intro h
+  have := h reg0 shape0 .complex
+    [.make, .store (.complex .nan .nan) 1, .store (.complex .nan .nan) 2, .len] (by
+      intro op hop
+      simp only [List.mem_cons, List.mem_nil_iff, or_false] at hop
+      rcases hop with rfl | rfl | rfl | rfl <;> simp [wt, fwt])
+  revert this
+  decide
+
+/-- PARTIAL (proved, every history): for every key type `τ` and every history of store / overwrite / delete / index /
+    comma-ok / len / make / nil-assignment / literal whose keys are values of `τ` covered by `key_injective_partial`,
+    starting from any related pair of states, the outputs on the JS encoding equal the outputs on the abstract map
+    modulo Go `==`.  In particular from the nil map: reads see an empty map, stores panic. -/
+theorem map_refines (reg : Nat → Str) (hreg : RegOK reg) (shape : Nat → KType) (τ : KType) (ops : List Op)
+    (hops : ∀ op ∈ ops, OpOK shape τ op) : run reg MSt.init ops = runS none ops :=
+  run_refines hreg ops MSt.init none inv_init hops
+
+/-- the same from any reachable pair of related states (the induction behind `map_refines`) -/
+theorem map_refines_from (reg : Nat → Str) (hreg : RegOK reg) (shape : Nat → KType) (τ : KType) (ops : List Op)
+    (ms : MSt) (gm : GoMapS) (h : RelO reg shape τ ms gm) (hops : ∀ op ∈ ops, OpOK shape τ op) :
+    run reg ms ops = runS gm ops :=
+  run_refines hreg ops ms gm h hops
+
+/-- a nil map reads as empty, ignores deletes and panics on store — for every key, without any hypothesis -/
+theorem map_refines_nil (reg : Nat → Str) (s : KSt) (k : KVal) (v : Int) :
+    (step reg ⟨none, s⟩ (.index k)).2 = .val 0 ∧ (step reg ⟨none, s⟩ (.commaOk k)).2 = .valOk 0 false ∧
+    (step reg ⟨none, s⟩ .len).2 = .len 0 ∧ (step reg ⟨none, s⟩ (.delete k)).2 = .unit ∧
+    (step reg ⟨none, s⟩ (.delete k)).1.m = none ∧
+    (step reg ⟨none, s⟩ (.store k v)) = (⟨none, s⟩, .panicNilMap) := by
+  simp [step, outOfEntry]
+
+/-- the hypotheses of `map_refines` are satisfiable by a non-trivial history (string-pair keys with separators) -/
+example : ∃ ops : List Op, ops.length = 5 ∧
+    ∀ op ∈ ops, OpOK (fun _ => KType.int) (.struct (.cons .string (.cons .string .nil))) op :=
+  ⟨[.make, .store (.tuple false (.cons (.str [36]) (.cons (.str []) .nil))) 1,
+     .store (.tuple false (.cons (.str []) (.cons (.str [36]) .nil))) 2,
+     .commaOk (.tuple false (.cons (.str [92]) (.cons (.str [36, 36]) .nil))), .len], rfl, by
+    intro op hop
+    simp only [List.mem_cons, List.mem_nil_iff, or_false] at hop
+    rcases hop with rfl | rfl | rfl | rfl | rfl <;> simp [OpOK, OKKey, wt, wtEach, good, goods, arrElemOK]⟩
+
+/-! ### the range loop (statements.go:211-236), for EVERY loop body that stores into / deletes from the map -/
+
+/-- the visits of one `for k, v := range m` happen at strictly increasing slot positions: no entry (one creation of a
+    key) is visited twice; an entry created during the loop is visited at most once per creation -/
+theorem range_visits_increasing {σ : Type} (reg : Nat → Str) (body : Body σ) (jm : JMap) (st : KSt) (u : σ) :
+    ((range reg body jm st u).visited.map (·.1)).Pairwise (· < ·) :=
+  GV.Proofs.GoMapRange.range_visits_increasing reg body jm st u
+
+theorem range_visits_nodup {σ : Type} (reg : Nat → Str) (body : Body σ) (jm : JMap) (st : KSt) (u : σ) :
+    ((range reg body jm st u).visited.map (·.1)).Nodup :=
+  GV.Proofs.GoMapRange.range_visits_nodup reg body jm st u
+
+/-- an entry deleted before the loop reaches it is never visited: from any loop state in which slot `p` is empty and
+    unvisited, the remaining `n` iterations never visit `p`, whatever the body does (deleted slots are never refilled —
+    re-inserting the key creates a new slot — and the live iterator only reports live slots) -/
+theorem range_skips_deleted {σ : Type} (reg : Nat → Str) (body : Body σ) (p n : Nat) (s : LoopSt σ)
+    (hd : s.jm[p]? = some none) (hv : ∀ x ∈ s.visited, x.1 ≠ p) :
+    ∀ x ∈ (rangeLoop reg body n s).visited, x.1 ≠ p :=
+  GV.Proofs.GoMapRange.rangeLoop_skips_deleted reg body p n s hd hv
+
+/-- every visit reports an entry that is in the map at that moment (`get` re-check), and an iteration whose re-check
+    fails visits nothing -/
+theorem range_visit_live {σ : Type} (reg : Nat → Str) (body : Body σ) (n : Nat) (s : LoopSt σ) (e : Entry)
+    (h : (JMap.next s.jm s.it).1.bind (JMap.get s.jm) = some e) :
+    (∃ k, s.jm.get k = some e) ∧
+    ∃ s', rangeLoop reg body (n + 1) s = rangeLoop reg body n s' ∧
+      s'.visited = s.visited ++ [(((JMap.next s.jm s.it).2.getD 0) - 1, e)] :=
+  GV.Proofs.GoMapRange.rangeLoop_visit_live reg body n s e h
+
+theorem count_one_of_nodup_mem : ∀ (l : List Nat) (a : Nat), l.Nodup → a ∈ l → l.count a = 1
+  | [], _, _, m => by simp at m
+  | x :: l, a, h, m => by
+    have hh := List.nodup_cons.mp h
+    by_cases c : x = a
+    · subst c
+      have : List.count x l = 0 := List.count_eq_zero.mpr hh.1
+      simp [List.count_cons, this]
+    · have : a ∈ l := by
+        rcases List.mem_cons.mp m with e | e
+        · exact absurd e.symm c
+        · exact e
+      simp [List.count_cons, c, count_one_of_nodup_mem l a hh.2 this]
+
+/-- FOR EVERY LOOP BODY that keeps the entry at slot `p` (key `k`) in the map — it may overwrite its value, and may
+    store and delete any other keys —: that entry is visited exactly once by `for k, v := range m`.
+    (At most once: positions increase. At least once: the `_size` snapshot equals the number of live slots at the start;
+    every `next()` consumes one distinct slot that was live at the start before reaching `p`, so the budget suffices.) -/
+theorem range_spec {σ : Type} (reg : Nat → Str) (body : Body σ) (jm : JMap) (st : KSt) (u : σ) (p : Nat) (k : JKey)
+    (hstart : GV.Proofs.GoMapRangeOnce.Keep p k jm)
+    (hbody : ∀ (x : Entry) (u' : σ) (jm' : JMap) (st' : KSt), GV.Proofs.GoMapRangeOnce.Keep p k jm' →
+      GV.Proofs.GoMapRangeOnce.Keep p k ((body x u').1.foldl (applyMut reg) (jm', st')).1) :
+    ((range reg body jm st u).visited.map (·.1)).count p = 1 := by
+  apply count_one_of_nodup_mem _ _ (range_visits_nodup reg body jm st u)
+  obtain ⟨e, he⟩ := hstart
+  exact GV.Proofs.GoMapRangeOnce.reaches reg body p k hbody jm.size _ 0 rfl (Nat.zero_le _) ⟨e, he⟩
+    (GV.Proofs.GoMapRangeOnce.liveIn_lt_size jm p (k, e) he)
+
+/-- a read-only loop visits every live entry exactly once (what the digests of the generated programs rely on) -/
+theorem range_readonly {σ : Type} (reg : Nat → Str) (f : Entry → σ → σ) (jm : JMap) (st : KSt) (u : σ) (p : Nat) (k : JKey)
+    (e : Entry) (h : jm[p]? = some (some (k, e))) :
+    ((range reg (fun x u' => ([], f x u')) jm st u).visited.map (·.1)).count p = 1 :=
+  range_spec reg _ jm st u p k ⟨e, h⟩ (fun _ _ _ _ hk => hk)
+
+/-- the hypothesis of `range_spec` is satisfiable by a body that really mutates the map: ranging over {a, b, c} with a
+    body that deletes `b` and stores a new key `d` keeps slot 0 (key `a`) -/
+example : ∃ (body : Body Unit) (jm : JMap), GV.Proofs.GoMapRangeOnce.Keep 0 (.num 1) jm ∧
+    (∀ (x : Entry) (u' : Unit) (jm' : JMap) (st' : KSt), GV.Proofs.GoMapRangeOnce.Keep 0 (.num 1) jm' →
+      GV.Proofs.GoMapRangeOnce.Keep 0 (.num 1) ((body x u').1.foldl (applyMut (fun _ => [])) (jm', st')).1) :=
+  ⟨fun _ _ => ([.delete (.int 2), .store (.int 4) 9], ()),
+   [some (.num 1, (.int 1, 1)), some (.num 2, (.int 2, 2)), some (.num 3, (.int 3, 3))],
+   ⟨_, rfl⟩, by
+    intro x u' jm' st' hk
+    obtain ⟨e, he⟩ := hk
+    cases jm' with
+    | nil => simp at he
+    | cons s0 m =>
+      simp at he
+      subst he
+      simp [List.foldl, applyMut, keyFor, JMap.delete, JMap.set, GV.Proofs.GoMapRangeOnce.Keep]⟩
+
 end GV.Props.C15
